@@ -15,11 +15,36 @@ pr = ck.prove()
 def fmt_call(c):
     return ",".join(str(x) for x in c)
 
-def sem_line(initial, strategy, spur, seed, progs, choices=None):
+def sem_line(initial, strategy, spur, seed, progs, choices=None, ctor=0):
     head = "sem %d %d %d %d" % (initial, strategy, spur, seed)
     if choices:
         head += " choices=" + choices
+    if ctor:
+        head += " ctor=%d" % ctor
     return head + " " + " ".join("| " + " ".join(fmt_call(c) for c in p) for p in progs)
+
+def norm_call(tok):
+    """call token -> (kind, delta, slack) with the C++ default arguments (delta = 1, slack = 0) filled in"""
+    p = tok.split(",")
+    k = p[0]
+    if k in ("W0", "T0"): return k[0], 1, 0
+    if k in ("W1", "T1"): return k[0], int(p[1]), 0
+    if k in ("W", "T"): return k, int(p[1]), int(p[2])
+    if k == "S": return "S", 1, 0
+    return "SN", int(p[1]), 0
+
+def api_forms(rng, progs):
+    """use the overloads with default arguments where they denote the same call"""
+    out = []
+    for p in progs:
+        q = []
+        for c in p:
+            if c[0] in ("W", "T") and c[2] == 0:
+                if c[1] == 1 and rng.chance(1, 2): q.append((c[0] + "0",)); continue
+                if rng.chance(1, 3): q.append((c[0] + "1", c[1])); continue
+            q.append(c)
+        out.append(q)
+    return out
 
 def gen_sem(rng):
     """returns (case line, mode).  modes: completable-equal, completable-mixed (any rest state is a violation),
@@ -28,13 +53,20 @@ def gen_sem(rng):
     completable = rng.chance(1, 2)
     mixed = rng.chance(3, 5)
     d0 = rng.range(1, 2)
+    family = rng.below(15)            # 0: burst (one signal(n) covers several waiters), 1: large deltas
+    large = family == 1
+    if family <= 1: completable = True
     def req():
+        if large:
+            return rng.range(100, 2000), (rng.range(0, 500) if mixed else 0)
         if mixed:
             return rng.range(0, 2) if rng.chance(1, 6) else rng.range(1, 3), rng.range(0, 2)
         return d0, 0
     progs = []
     if completable:
         ncons = rng.range(1, nthr - 1)
+        if family == 0:
+            nthr = max(nthr, 3); ncons = nthr - 1          # several waiters, one producer
         demand = 0; maxslack = 0
         for t in range(ncons):
             p = []
@@ -52,6 +84,9 @@ def gen_sem(rng):
         prods = [[] for _ in range(nprod)]
         left = supply_needed
         k = 0
+        if family == 0 or large:
+            # the whole supply in ONE signal(n): wakes / covers several waiters at once
+            prods[0].append(("SN", left)); left = 0
         while left > 0 or any(len(p) == 0 for p in prods):
             p = prods[k % nprod]; k += 1
             if len(p) >= 4 and left > 0:
@@ -81,7 +116,10 @@ def gen_sem(rng):
     strategy = rng.below(2)
     seed = rng.next() % 1000000007
     mode = ("completable-" if completable else "free-") + ("mixed" if mixed else "equal")
-    return sem_line(initial, strategy, spur, seed, progs), mode
+    if family == 0: mode = "burst-signal-n"
+    if large: mode = "large-deltas"
+    ctor = rng.choice([0, 0, 1, 2, 3] if initial == 0 else [0, 0, 2, 3])
+    return sem_line(initial, strategy, spur, seed, api_forms(rng, progs), ctor=ctor), mode
 
 def gen_bar(rng, kind):
     n = rng.range(1, 4)
@@ -90,11 +128,14 @@ def gen_bar(rng, kind):
     mode = "%s-n%d" % (kind, n)
     if kind == "bm" and n >= 2 and rng.chance(1, 12):
         gens[rng.below(n)] = max(0, g - 1 - rng.below(2)); mode = "bm-unequal"
-    yld = rng.below(2)
+    yld = rng.below(3)                 # 0 wait, 1 wait_yield, 2 mixed callers within a generation
     spur = rng.below(2) if (kind == "bm" and mode != "bm-unequal") else 0
     strategy = rng.below(2)
     seed = rng.next() % 1000000007
-    return "%s %d %d %d %d | %s" % (kind, yld, strategy, spur, seed, " ".join(map(str, gens))), mode
+    sil = "".join("1" if rng.chance(1, 3) else "0" for _ in range(max(gens)))     # generations crossed without lambda
+    opts = (" sil=" + sil) if "1" in sil else ""
+    if kind == "bs" and rng.chance(1, 2): opts += " stepq=1"
+    return "%s %d %d %d %d%s | %s" % (kind, yld, strategy, spur, seed, opts, " ".join(map(str, gens))), mode
 
 # ---------------------------------------------------------------- interpretation of a case
 def parse_case(line):
@@ -113,14 +154,13 @@ def sem_completable(head, blocks):
     """producers/consumers separated and supply >= total delta + max slack: no rest state may have a blocked waiter"""
     initial = int(head[1]); supply = initial; demand = 0; maxslack = 0
     for b in blocks:
-        kinds = set(c.split(",")[0] for c in b)
+        kinds = set(norm_call(c)[0] for c in b)
         if kinds & {"S", "SN"} and kinds & {"W", "T"}:
             return False
         for c in b:
-            p = c.split(",")
-            if p[0] == "S": supply += 1
-            elif p[0] == "SN": supply += int(p[1])
-            else: demand += int(p[1]); maxslack = max(maxslack, int(p[2]))
+            k, d, sl = norm_call(c)
+            if k in ("S", "SN"): supply += d
+            else: demand += d; maxslack = max(maxslack, sl)
     return supply >= demand + maxslack
 
 def fields(line):
@@ -151,7 +191,7 @@ def state_of(hline):
 def with_choices(case, choices):
     head, blocks = parse_case(case)
     head = [h for h in head if not h.startswith("choices=")]
-    if choices: head.append("choices=" + choices)
+    if choices: head.insert(5, "choices=" + choices)
     return " ".join(head) + " " + " ".join("| " + " ".join(b) for b in blocks)
 
 # ---------------------------------------------------------------- cases
@@ -256,9 +296,9 @@ else:
                 stranded = []; blocked = []
                 for t, (pos, inside) in sorted(thr.items()):
                     if inside:
-                        call = blocks[t - 1][pos].split(",")
+                        call = norm_call(blocks[t - 1][pos])
                         blocked.append("%d:%d" % (t, pos))
-                        if call[0] != "W" or int(call[1]) + int(call[2]) <= val:
+                        if call[0] != "W" or call[1] + call[2] <= val:
                             stranded.append(t)
                 if stranded:
                     found = True
@@ -348,8 +388,50 @@ if corr_breaks and not found:
 if pr is not None and not pr["ok"]:
     ck.proof_broken(found)
 
+# ---------------------------------------------------------------- public API surface and how often this run exercised it
+def count(pred):
+    return sum(1 for c in cases if pred(c))
+def calls_of(c):
+    h, b = parse_case(c)
+    return [x for blk in b for x in blk] if h[0] == "sem" else []
+def hopt(c, key):
+    for tok in parse_case(c)[0]:
+        if tok.startswith(key + "="): return tok.split("=", 1)[1]
+    return None
+def is_bar(c, k): return c.split()[0] == k
+api_surface = [
+ {"api": "Semaphore(size_t initial_value)", "called": True, "cases": count(lambda c: c.startswith("sem") and hopt(c, "ctor") is None), "observed": "initial value enters every returned value (model init)"},
+ {"api": "Semaphore() [default initial_value = 0]", "called": True, "cases": count(lambda c: hopt(c, "ctor") == "1"), "observed": "as above, initial 0"},
+ {"api": "Semaphore(Semaphore&&)", "called": True, "cases": count(lambda c: hopt(c, "ctor") == "2"), "observed": "moved-into semaphore is the one under test: its value must equal the source's initial value"},
+ {"api": "Semaphore::operator=(Semaphore&&)", "called": True, "cases": count(lambda c: hopt(c, "ctor") == "3"), "observed": "Semaphore(7) overwritten by move assignment from Semaphore(initial), then used"},
+ {"api": "Semaphore(const Semaphore&) / operator=(const Semaphore&)", "called": False, "cases": 0, "observed": "deleted in the source (non-copyable): nothing to call"},
+ {"api": "size_t signal()", "called": True, "cases": count(lambda c: "S" in calls_of(c)), "observed": "returned value compared with the model (ORet) and with sem_check"},
+ {"api": "size_t signal(size_t delta)", "called": True, "cases": count(lambda c: any(x.startswith("SN,") for x in calls_of(c))), "observed": "returned value compared; delta = 0: %d cases; one signal(n) covering several waiters (burst family): %d cases" % (count(lambda c: "SN,0" in calls_of(c)), stats.get("burst-signal-n", 0))},
+ {"api": "size_t wait(size_t delta, size_t slack)", "called": True, "cases": count(lambda c: any(x.startswith("W,") for x in calls_of(c))), "observed": "returned value compared; delta = 0: %d cases; deltas 100..2000: %d cases" % (count(lambda c: any(x.startswith("W,0,") for x in calls_of(c))), stats.get("large-deltas", 0))},
+ {"api": "size_t wait(size_t delta) [slack = 0]", "called": True, "cases": count(lambda c: any(x.startswith("W1,") for x in calls_of(c))), "observed": "model call CWait delta 0: a changed default is a mismatch"},
+ {"api": "size_t wait() [delta = 1, slack = 0]", "called": True, "cases": count(lambda c: "W0" in calls_of(c)), "observed": "model call CWait 1 0"},
+ {"api": "bool try_acquire(size_t delta, size_t slack)", "called": True, "cases": count(lambda c: any(x.startswith("T,") for x in calls_of(c))), "observed": "returned bool compared with the model and sem_check"},
+ {"api": "bool try_acquire(size_t delta) [slack = 0]", "called": True, "cases": count(lambda c: any(x.startswith("T1,") for x in calls_of(c))), "observed": "model call CTry delta 0"},
+ {"api": "bool try_acquire() [delta = 1, slack = 0]", "called": True, "cases": count(lambda c: "T0" in calls_of(c)), "observed": "model call CTry 1 0"},
+ {"api": "size_t Semaphore::value() const", "called": True, "cases": count(lambda c: c.startswith("sem")), "observed": "read at the end of every run and in every rest state (compared with the model's value); not read concurrently: the accessor is an unsynchronised read documented as debugging aid"},
+ {"api": "ThreadBarrierMutex(size_t thread_count)", "called": True, "cases": count(lambda c: is_bar(c, "bm")), "observed": "thread_count 1: %d cases" % stats.get("bm-n1", 0)},
+ {"api": "ThreadBarrierMutex::wait(Lambda)", "called": True, "cases": count(lambda c: is_bar(c, "bm") and c.split()[1] in ("0", "2")), "observed": "action notes itself (scheduling point inside the lambda)"},
+ {"api": "ThreadBarrierMutex::wait() [NoOperation]", "called": True, "cases": count(lambda c: is_bar(c, "bm") and c.split()[1] in ("0", "2") and hopt(c, "sil") is not None), "observed": "generations listed in sil=: model takes the silent last-arriver step (BLocked/ONotifyAll)"},
+ {"api": "ThreadBarrierMutex::wait_yield(Lambda)", "called": True, "cases": count(lambda c: is_bar(c, "bm") and c.split()[1] in ("1", "2")), "observed": "forwards to wait(lambda): same model; mixed callers within a generation (ymode 2): %d cases" % count(lambda c: is_bar(c, "bm") and c.split()[1] == "2")},
+ {"api": "ThreadBarrierMutex::wait_yield() [NoOperation]", "called": True, "cases": count(lambda c: is_bar(c, "bm") and c.split()[1] in ("1", "2") and hopt(c, "sil") is not None), "observed": "as wait()"},
+ {"api": "size_t ThreadBarrierMutex::step() const", "called": True, "cases": count(lambda c: is_bar(c, "bm")), "observed": "read at the end of every run, compared with the model's step_ (plain unsynchronised read: not called concurrently)"},
+ {"api": "ThreadBarrierSpin(size_t thread_count)", "called": True, "cases": count(lambda c: is_bar(c, "bs")), "observed": "thread_count 1: %d cases" % stats.get("bs-n1", 0)},
+ {"api": "ThreadBarrierSpin::wait(Lambda)", "called": True, "cases": count(lambda c: is_bar(c, "bs") and c.split()[1] in ("0", "2")), "observed": "busy loop = self-loop load events"},
+ {"api": "ThreadBarrierSpin::wait() [NoOperation]", "called": True, "cases": count(lambda c: is_bar(c, "bs") and c.split()[1] in ("0", "2") and hopt(c, "sil") is not None), "observed": "model: silent action right after waiting_.store(0)"},
+ {"api": "ThreadBarrierSpin::wait_yield(Lambda)", "called": True, "cases": count(lambda c: is_bar(c, "bs") and c.split()[1] in ("1", "2")), "observed": "yield events between the loads; mixed wait/wait_yield callers within a generation (ymode 2): %d cases" % count(lambda c: is_bar(c, "bs") and c.split()[1] == "2")},
+ {"api": "ThreadBarrierSpin::wait_yield() [NoOperation]", "called": True, "cases": count(lambda c: is_bar(c, "bs") and c.split()[1] in ("1", "2") and hopt(c, "sil") is not None), "observed": "as wait()"},
+ {"api": "size_t ThreadBarrierSpin::step() const", "called": True, "cases": count(lambda c: is_bar(c, "bs")), "observed": "end of every run; with stepq=1 (%d cases) also by every thread after each crossing: the atomic load and its value are events the model must accept" % count(lambda c: hopt(c, "stepq") == "1")},
+ {"api": "action lambda throwing", "called": False, "cases": 0, "observed": "not documented by either barrier (mutex barrier would leave step_ flipped and waiters un-notified): outside the property"},
+]
+
 ck.finish({
     "correspondence_disagreements": len(corr_breaks),
+    "api_surface": api_surface,
     "evaluations": len(cases) - skipped,
     "distinct_nontrivial": len(distinct),
     "traces_validated_against_impl": traces_ok + rest_states,
